@@ -76,7 +76,7 @@ impl<'a> Gen<'a> {
         let is_num = json.chars().next().map(|c| c.is_ascii_digit() || c == '-').unwrap_or(false);
         match s["k"].as_str().unwrap() {
             "str" => is_str && (s.get("gen").is_none() || json.starts_with("\"crypto_error_0x1")),
-            "hex" => is_str,
+            "hex" => is_str && json[1..].starts_with(s.get("pfx").and_then(|p| p.as_str()).unwrap_or("")),
             "unitEnum" => is_str && s["names"].as_array().unwrap().iter().any(|n| jstr(n.as_str().unwrap()) == json),
             "int" | "flt" => is_num,
             "bool" => json == "true" || json == "false",
@@ -133,6 +133,7 @@ impl<'a> Gen<'a> {
                 };
                 let t = hex(&self.rng.bytes(n));
                 let t = if t == "-" { String::new() } else { t };
+                let t = format!("{}{}", s.get("pfx").and_then(|p| p.as_str()).unwrap_or(""), t);
                 toks.push(format!("s{}", hexs(&t)));
                 (jstr(&t), jstr(&t))
             }
